@@ -349,6 +349,12 @@ impl SSIterator for TableIterator {
                 if let Ok(()) = self.load_block(&handle) {
                     // current_block is always set if load_block() returned Ok.
                     self.current_block.as_mut().unwrap().seek(to);
+                    if !self.current_block.as_ref().unwrap().valid() {
+                        // `to` is greater than every key of this block (but not greater than
+                        // its index key): the entry sought is the first one of the next block.
+                        self.current_block = None;
+                        self.advance();
+                    }
                     return;
                 }
             }
